@@ -139,3 +139,56 @@ package octosql
 //@   case Tuple: a.TypeID == 9
 //@   ensures consistent: a.hash(h) == b.hash(h)
 //@   use List: foldEq(h, a.List, b.List, len(a.List))
+
+// ---- C10: the type algebra ----
+// Well-formed types: a known TypeID; only a union has alternatives and unions are flat; alternatives, fields, tuple and list elements are
+// well-formed (recursive predicate over finite type trees).
+//@ spec rec validT(t Type) bool = 0 <= t.TypeID && t.TypeID <= 11 && (t.TypeID != 10 ==> len(t.Union.Alternatives) == 0) && forall(j, 0, len(t.Union.Alternatives), validT(t.Union.Alternatives[j]) && t.Union.Alternatives[j].TypeID != 10) && forall(j, 0, len(t.Struct.Fields), validT(t.Struct.Fields[j].Type)) && forall(j, 0, len(t.Tuple.Elements), validT(t.Tuple.Elements[j])) && (t.List.Element != nil ==> validT(deref(t.List.Element)))
+// rel is "the relation Type.Is computes" (Is is pure and deterministic): 0 = Isnt, 1 = Maybe, 2 = Is.
+//@ spec rel(t Type, other Type) int
+//@ func Type.Is
+//@   requires validT(t) && validT(other)
+//@   pure
+//@   defines result == rel(t, other)
+//@   ensures range: result == 0 || result == 1 || result == 2
+//@   ensures any: other.TypeID == 11 ==> result == 2
+//@   ensures scalar: t.TypeID <= 6 && other.TypeID <= 6 ==> result == ite(t.TypeID == other.TypeID, 2, 0)
+//@   loop 1 invariant range: 0 <= $k && $k <= len(t.Union.Alternatives)
+//@   loop 1 invariant fits: (allFit == forall(j, 0, $k, rel(t.Union.Alternatives[j], other) == 2)) && (anyFits == exists(j, 0, $k, rel(t.Union.Alternatives[j], other) >= 1))
+//@   loop 2 invariant range: 0 <= $k && $k <= len(other.Union.Alternatives)
+//@   loop 2 invariant best: 0 <= out && out <= 2 && forall(j, 0, $k, rel(t, other.Union.Alternatives[j]) <= out) && (out == 0 || exists(j, 0, $k, rel(t, other.Union.Alternatives[j]) == out))
+//@   ensures union.left: t.TypeID == 10 && other.TypeID != 11 ==> (result == 2) == forall(j, 0, len(t.Union.Alternatives), rel(t.Union.Alternatives[j], other) == 2)
+//@   ensures union.right: t.TypeID != 10 && other.TypeID == 10 ==> forall(j, 0, len(other.Union.Alternatives), rel(t, other.Union.Alternatives[j]) <= result) && (result == 0 || exists(j, 0, len(other.Union.Alternatives), rel(t, other.Union.Alternatives[j]) == result))
+
+// NonNullable: identity on non-unions; on a union it removes exactly the NULL alternatives, keeps the others in
+// order, and unwraps the result when a single alternative remains.
+//@ func NonNullable
+//@   requires validT(t)
+//@   loop 1 invariant range: 0 <= $k && $k <= len(t.Union.Alternatives) && 0 <= len(outAlternatives) && len(outAlternatives) <= $k && outAlternatives.base != t.Union.Alternatives.base
+//@   loop 1 invariant frame: forall(j, 0, len(t.Union.Alternatives), t.Union.Alternatives[j].TypeID == old(t.Union.Alternatives[j].TypeID))
+//@   loop 1 invariant nonull: forall(j, 0, len(outAlternatives), outAlternatives[j].TypeID != 0 && outAlternatives[j].TypeID != 10)
+//@   loop 1 invariant allkept: forall(j, 0, $k, t.Union.Alternatives[j].TypeID != 0) ==> len(outAlternatives) == $k
+//@   loop 1 invariant somedropped: exists(j, 0, $k, t.Union.Alternatives[j].TypeID == 0) ==> len(outAlternatives) < $k
+//@   loop 1 step keep: len(outAlternatives) == old(len(outAlternatives)) + ite(alternative.TypeID != 0, 1, 0) && (alternative.TypeID != 0 ==> same(outAlternatives[len(outAlternatives)-1], alternative))
+//@   ensures identity: t.TypeID != 10 ==> same(result, t)
+//@   ensures nonull: t.TypeID == 10 && result.TypeID == 10 ==> forall(j, 0, len(result.Union.Alternatives), result.Union.Alternatives[j].TypeID != 0)
+//@   ensures nonnullable: t.TypeID == 10 && forall(j, 0, len(t.Union.Alternatives), t.Union.Alternatives[j].TypeID != 0) && len(t.Union.Alternatives) != 1 ==> result.TypeID == 10 && len(result.Union.Alternatives) == len(t.Union.Alternatives)
+//@   ensures drops: t.TypeID == 10 && exists(j, 0, len(t.Union.Alternatives), t.Union.Alternatives[j].TypeID == 0) ==> result.TypeID != 10 || len(result.Union.Alternatives) < len(t.Union.Alternatives)
+
+// Value.Type(): the type computed for a value has the value's TypeID, and — one level down — every field of an
+// object type / element of a tuple type has the TypeID of the corresponding element (so a value inhabits its own
+// type as far as TypeIDs go, to any depth by induction over the recursive calls).
+//@ func Value.Type
+//@   requires validV(value)
+//@   ensures tid: result.TypeID == value.TypeID
+//@   loop 2 invariant fields: 0 <= $k && $k <= len(value.Struct) && len(fields) == len(value.Struct) && forall(j, 0, $k, fields[j].Type.TypeID == value.Struct[j].TypeID)
+//@   loop 3 invariant elements: 0 <= $k && $k <= len(value.Tuple) && len(elements) == len(value.Tuple) && forall(j, 0, $k, elements[j].TypeID == value.Tuple[j].TypeID)
+//@   ensures object: value.TypeID == 8 ==> len(result.Struct.Fields) == len(value.Struct) && forall(j, 0, len(value.Struct), result.Struct.Fields[j].Type.TypeID == value.Struct[j].TypeID)
+//@   ensures tuple: value.TypeID == 9 ==> len(result.Tuple.Elements) == len(value.Tuple) && forall(j, 0, len(value.Tuple), result.Tuple.Elements[j].TypeID == value.Tuple[j].TypeID)
+
+// TypeIntersection accumulates the fitting primitive alternatives; a non-fitting alternative never changes the
+// accumulated result (the accumulator must not alias the loop variable).
+//@ func TypeIntersection
+//@   requires validT(t1) && validT(t2)
+//@   loop 1 step stable: old(outputType) != nil && rel(t, t2) != 2 ==> outputType == old(outputType) && deref(outputType).TypeID == old(deref(outputType).TypeID)
+//@   loop 2 step stable: old(outputType) != nil && rel(t, t1) != 2 ==> outputType == old(outputType) && deref(outputType).TypeID == old(deref(outputType).TypeID)
